@@ -303,6 +303,21 @@ def directed_malformed(start_id):
         k += 1
         out.append(dict({"id": k, "channels": 2, "bps": 16, "rate": 44100, "bpscode": "hdr", "ratecode": "table", "selfcheck": False, "class": "streaminfo-mismatch",
                          "frames": [{"bs": 16, "chassign": "indep", "subs": [{"type": "verbatim"}, {"type": "verbatim"}]}], "pcm": pcm2}, **extra))
+    # a block of 1..15 samples that is not the last one, under every coding of its length (8-bit and 16-bit field), in fixed- and
+    # variable-blocking streams with a declared total (then it must be refused) and without one (then nothing says it is not the last)
+    for short in (1, 2, 10, 14, 15):
+        for how in ("8", "16"):
+            for variable in (False, True):
+                for known in (True, False):
+                    for where in (0, 1):
+                        k += 1
+                        sizes = [16, 16, 16]
+                        sizes[where] = short
+                        n = sum(sizes)
+                        out.append({"id": k, "channels": 1, "bps": 16, "rate": 44100, "bpscode": "hdr", "ratecode": "table", "selfcheck": False,
+                                    "class": "short-inner-block", "variable": variable, "total_known": known, "minbs": 16, "maxbs": 16,
+                                    "frames": [{"bs": b, "bscode": how if b == short else "auto", "subs": [{"type": "verbatim"}]} for b in sizes],
+                                    "pcm": [[(i * 29) % 301 - 150 for i in range(n)]]})
     lo, hi = -(1 << 32) + 1, (1 << 32) - 1
     edge = [MIN, (1 << 31) - 1]
     for assign in ("ls", "sr", "ms"):
